@@ -6,6 +6,7 @@ import (
 	"fmt"
 	"sync"
 	"sync/atomic"
+	"syscall"
 	"time"
 
 	"github.com/bradenaw/juniper/stream"
@@ -14,12 +15,13 @@ import (
 )
 
 const (
-	kindEnd   = iota // hands out its items, then End
-	kindFatal        // hands out FatalAt items, then its own error, every time
-	kindBlock        // hands out its items, then blocks until its context is done (never ends)
+	kindEnd     = iota // hands out its items, then End
+	kindFatal          // hands out FatalAt items, then its own error, every time
+	kindBlock          // hands out its items, then blocks until its context is done (never ends)
+	kindEndless        // a generator: never looks at its context, returns the next value at once, never ends
 )
 
-var kindNames = []string{"end", "fatal", "never-ends"}
+var kindNames = []string{"end", "fatal", "never-ends", "endless-ignores-ctx"}
 
 // Error values a failing input can return.
 const (
@@ -27,9 +29,21 @@ const (
 	errCanceled             // context.Canceled itself, although nobody cancelled the input's context
 	errWrapsCanceled        // an error of its own that wraps context.Canceled
 	errDeadline             // context.DeadlineExceeded, although the input's context has no deadline
+	errWrapsEnd             // an error of its own that wraps stream.End ("truncated: end of stream")
+	errIsEnd                // a typed error whose Is method matches stream.End
 )
 
-var errKindNames = []string{"sentinel", "context.Canceled", "wraps context.Canceled", "context.DeadlineExceeded"}
+var errKindNames = []string{"sentinel", "context.Canceled", "wraps context.Canceled", "context.DeadlineExceeded", "wraps stream.End", "typed error with Is(stream.End)"}
+
+// endLikeError is an error, not the end of the stream, although errors.Is(e, stream.End) holds.
+type endLikeError struct{ input, at int }
+
+func (e *endLikeError) Error() string {
+	return fmt.Sprintf("input %d broke off at position %d", e.input, e.at)
+}
+func (e *endLikeError) Is(target error) bool { return target == stream.End }
+
+var errKilled = errors.New("verif: endless input switched off by the monitor")
 
 // Consumer's per-call contexts on the merged stream.
 const (
@@ -127,9 +141,26 @@ type recIn struct {
 	ctxTick atomic.Int64 // tick at which a context error was first returned
 	ctxErr  atomic.Value // that error
 	inNext  atomic.Int32
+
+	// kindEndless: never looks at ctx, returns the next value at once, never ends; kill is the
+	// monitor's switch that makes it fail so that a goroutine spinning on it can be stopped.
+	endless        bool
+	idx            int
+	seq            atomic.Int64
+	kill           atomic.Bool
+	nextAfterClose atomic.Int64
 }
 
 func (s *recIn) Next(ctx context.Context) (uint64, error) {
+	if s.endless {
+		if s.kill.Load() {
+			return 0, errKilled
+		}
+		if s.p.Closes.Load() > 0 {
+			s.nextAfterClose.Add(1)
+		}
+		return mkval(s.idx, int(s.seq.Add(1)-1)), nil
+	}
 	s.inNext.Add(1)
 	defer s.inNext.Add(-1)
 	s.pert.Do()
@@ -163,9 +194,15 @@ const (
 	outClosedEarly = iota // stopped reading after CloseAfter items
 	outEnd
 	outErr
+	outGaveUp // an input had failed, the consumer kept getting values of an endless input and no error
 )
 
-var outNames = []string{"closed-early", "end", "error"}
+var outNames = []string{"closed-early", "end", "error", "gave-up"}
+
+// With an endless input the consumer that waits for another input's error cannot wait for ever:
+// once that input has returned its error (logical clock, not wall clock) the consumer gives up
+// after this many further values without being told (correct code: a handful).
+const giveUpAfter = 1_000_000
 
 func runStream(c *vkit.Case, p sPlan) { isolated(func() { runStream1(c, p) }) }
 
@@ -198,6 +235,10 @@ func runStream1(c *vkit.Case, p sPlan) {
 				ri.fatal, ri.unique = fmt.Errorf("input %d failed at position %d: %w", i, in.FatalAt, context.Canceled), true
 			case errDeadline:
 				ri.fatal = context.DeadlineExceeded
+			case errWrapsEnd:
+				ri.fatal, ri.unique = fmt.Errorf("input %d truncated at position %d: %w", i, in.FatalAt, stream.End), true
+			case errIsEnd:
+				ri.fatal, ri.unique = &endLikeError{i, in.FatalAt}, true
 			default:
 				ri.fatal, ri.unique = fmt.Errorf("fatal error of input %d at position %d", i, in.FatalAt), true
 			}
@@ -207,6 +248,9 @@ func runStream1(c *vkit.Case, p sPlan) {
 			lens[i] = in.FatalAt
 		case kindBlock:
 			pr.BlockAtEnd = true
+		case kindEndless:
+			ri.endless, ri.idx = true, i
+			lens[i] = 1<<31 - 2
 		}
 		ins[i] = ri
 		streams[i] = ri
@@ -244,14 +288,19 @@ func runStream1(c *vkit.Case, p sPlan) {
 		ownCtx   int      // how many Next calls returned the error of the consumer's own done context
 	)
 	done := make(chan struct{})
+	hasEndless := p.has(kindEndless)
+	var closeStart atomic.Int64 // wall clock at which the consumer called Close (used as a lower bound only)
 	go func() {
 		defer close(done)
 		gs.add()
+		errMark := -1
 		for call := 0; ; call++ {
 			if p.CloseAfter >= 0 && len(got) >= p.CloseAfter {
 				break
 			}
-			consPert.Do()
+			if errMark < 0 { // (no pacing once the consumer is only counting down to giving up)
+				consPert.Do()
+			}
 			ctx, cancel, mode := context.Background(), context.CancelFunc(nil), ctxLive
 			if call < len(p.ConsCtx) {
 				mode = p.ConsCtx[call]
@@ -314,8 +363,21 @@ func runStream1(c *vkit.Case, p sPlan) {
 				break
 			}
 			got = append(got, v)
+			if hasEndless && p.CloseAfter < 0 && len(got)%1024 == 0 {
+				if errMark < 0 {
+					for _, ri := range ins {
+						if ri.errTick.Load() != 0 {
+							errMark = len(got)
+						}
+					}
+				} else if len(got)-errMark > giveUpAfter {
+					outcome = outGaveUp
+					break
+				}
+			}
 		}
 		consPert.Do()
+		closeStart.Store(time.Now().UnixNano())
 		phase.Store(phClose)
 		clock.Tick()
 		pn = vkit.Try(func() { m.Close() })
@@ -325,7 +387,42 @@ func runStream1(c *vkit.Case, p sPlan) {
 
 	// Neither Next nor Close may block for good. Decided by quiescence, never by the wall clock.
 	r.Eval(1)
-	verdict, dump := vkit.Await(done, vkit.AwaitOpts{Relevant: gs.relevant})
+	opts := vkit.AwaitOpts{Relevant: gs.relevant}
+	if p.has(kindEndless) {
+		opts.Hard = 15 * time.Second
+	}
+	verdict, dump := vkit.Await(done, opts)
+	closeBlockedFor := func() time.Duration {
+		if phase.Load() != phClose {
+			return 0
+		}
+		return time.Since(time.Unix(0, closeStart.Load()))
+	}
+	for t0 := time.Now(); verdict == vkit.AwaitInconclusive && hasEndless && closeBlockedFor() < 15*time.Second && time.Since(t0) < 90*time.Second; {
+		// Still reading (or Close has not been blocked for long enough yet): keep waiting.
+		verdict, dump = vkit.Await(done, opts)
+	}
+	if verdict != vkit.AwaitDone {
+		// Whatever the verdict, let goroutines that keep pulling from an endless input stop.
+		defer func() {
+			for _, ri := range ins {
+				ri.kill.Store(true)
+			}
+		}()
+	}
+	if verdict == vkit.AwaitInconclusive && hasEndless && closeBlockedFor() >= 15*time.Second {
+		// Close has been blocked for >= 15 s although every input's Next returns at once or
+		// honours the cancelled context (normal: microseconds). Not parked, so not "stuck": is a
+		// goroutine of this stream.Merge still running and pulling from its input?
+		spins, w := spinningAfterClose(gs, ins, &phase, done)
+		if spins {
+			c.Violation("smerge-goroutine-spins-after-close", fmt.Sprintf("Close of stream.Merge over %d inputs has not returned after 15 s: a goroutine it started keeps running and keeps pulling from an endless input that ignores its context (consumer had %d items, outcome %s)", n, len(got), outNames[outcome]),
+				witness(w))
+		} else {
+			r.Inconclusive(fmt.Sprintf("%s: Close of stream.Merge with an endless input had not returned after 15 s, but a spinning goroutine could not be established (%v)", c.ID(), w["why_not"]))
+		}
+		return
+	}
 	switch verdict {
 	case vkit.AwaitStuck:
 		ph := phase.Load()
@@ -354,7 +451,7 @@ func runStream1(c *vkit.Case, p sPlan) {
 		var out []map[string]any
 		for i, ri := range ins {
 			out = append(out, map[string]any{
-				"input": i, "handed_out": ri.p.Pos(), "next_calls": ri.p.Calls.Load(), "closes": ri.p.Closes.Load(),
+				"input": i, "handed_out": ri.p.Pos(), "endless_values_handed_out": ri.seq.Load(), "endless_next_after_close": ri.nextAfterClose.Load(), "next_calls": ri.p.Calls.Load(), "closes": ri.p.Closes.Load(),
 				"end_tick": ri.endTick.Load(), "fatal_tick": ri.errTick.Load(), "ctx_err_tick": ri.ctxTick.Load(),
 				"first_close_tick": ri.p.FirstCloseTick.Load(), "last_next_tick": ri.p.LastNextTick.Load(), "in_next_now": ri.inNext.Load(),
 			})
@@ -380,7 +477,7 @@ func runStream1(c *vkit.Case, p sPlan) {
 
 	// 1. Values: nothing invented, nothing twice, each input in order; on End everything.
 	r.Eval(1)
-	if sig, what, _ := checkValues(got, lens, outcome == outEnd); sig != "" {
+	if sig, what, _ := checkValues(got, lens, outcome == outEnd && !p.has(kindEndless)); sig != "" {
 		c.Violation("smerge-"+sig, fmt.Sprintf("stream.Merge over %d inputs, consumer outcome %s: %s", n, outNames[outcome], what), hist(nil))
 		return
 	}
@@ -388,6 +485,10 @@ func runStream1(c *vkit.Case, p sPlan) {
 	// 2. The way it ended.
 	r.Eval(1)
 	switch outcome {
+	case outGaveUp:
+		c.Violation("smerge-error-not-reported", fmt.Sprintf("stream.Merge over %d inputs: an input returned its error, after which the consumer received more than %d further values (of an endless input) and was never told", n, giveUpAfter),
+			witness(map[string]any{"inputs": inputStates(), "values_received": len(got)}))
+		return
 	case outEnd:
 		for i, ri := range ins {
 			et := ri.endTick.Load()
@@ -456,6 +557,10 @@ func runStream1(c *vkit.Case, p sPlan) {
 			c.Violation("smerge-input-close", fmt.Sprintf("after Close of stream.Merge over %d inputs returned and its goroutines were gone: %s", n, mis), hist(map[string]any{"input": i}))
 			return
 		}
+		if k := ri.nextAfterClose.Load(); k > 0 {
+			c.Violation("smerge-input-close", fmt.Sprintf("endless input %d of stream.Merge: %d Next calls after its Close", i, k), hist(map[string]any{"input": i}))
+			return
+		}
 		if k := ri.p.NextDuringNext.Load(); k > 0 {
 			c.Violation("smerge-input-concurrent-next", fmt.Sprintf("input %d of stream.Merge had %d overlapping Next calls", i, k), hist(map[string]any{"input": i}))
 			return
@@ -479,6 +584,9 @@ func runStream1(c *vkit.Case, p sPlan) {
 	}
 	if p.has(kindBlock) {
 		r.Count("stream.Merge", "closed with a never-ending input", 1)
+	}
+	if p.has(kindEndless) {
+		r.Count("stream.Merge closed with an endless input that ignores its context, consumer outcome", outNames[outcome], 1)
 	}
 	if ownCtx > 0 {
 		r.Count("stream.Merge after a Next that returned the consumer's context error, the consumer went on and reached", outNames[outcome], 1)
@@ -573,7 +681,7 @@ func genInputs(c *vkit.Case, n int, weights []int) []sInput {
 		}
 		if in.Kind == kindFatal {
 			in.FatalAt = rnd.Intn(in.N + 1)
-			in.ErrKind = rnd.Weighted([]int{40, 20, 20, 20})
+			in.ErrKind = rnd.Weighted([]int{30, 14, 14, 14, 14, 14})
 		}
 		ins = append(ins, in)
 	}
@@ -662,10 +770,113 @@ func smergeCtxCase(c *vkit.Case) {
 	}
 }
 
+// smergeEndlessCase: one or two inputs are generators that never look at their context and never
+// end; the consumer closes after k items, or reads until another input fails and then closes.
+// Close must return: the generator's goroutine has to stop at its first failed Send.
+func smergeEndlessCase(c *vkit.Case) {
+	if c.R.NViolations() >= maxViolations {
+		return
+	}
+	rnd := c.Rand
+	n := arities[1+c.Index%(len(arities)-1)]
+	p := sPlan{Label: "endless-input", ConsPace: vkit.Pick(rnd, intensities)}
+	if c.Index%2 == 0 || n == 1 {
+		p.Label += ", close after k"
+		p.Inputs = genInputs(c, n, []int{40, 20, 40})
+		p.CloseAfter = rnd.Intn(13)
+	} else {
+		p.Label += ", another input fails"
+		p.Inputs = genInputs(c, n, []int{50, 0, 50})
+		f := rnd.Intn(n)
+		p.Inputs[f].Kind = kindFatal
+		p.Inputs[f].N = rnd.Intn(4)
+		p.Inputs[f].FatalAt = rnd.Intn(p.Inputs[f].N + 1)
+		p.Inputs[f].ErrKind = rnd.Intn(len(errKindNames))
+		p.CloseAfter = -1
+	}
+	// The endless ones (never the failing one of the second kind).
+	k := 1
+	if n >= 3 && rnd.Bool(0.3) {
+		k = 2
+	}
+	for _, i := range rnd.Perm(n) {
+		if k > 0 && !(p.CloseAfter == -1 && p.Inputs[i].Kind == kindFatal) {
+			p.Inputs[i] = sInput{Kind: kindEndless}
+			k--
+		}
+	}
+	if !p.has(kindEndless) { // n == 1 and it fails: make it the close-after-k kind
+		p.Inputs[0] = sInput{Kind: kindEndless}
+		p.CloseAfter = rnd.Intn(13)
+	}
+	runStream(c, p)
+	c.R.Count("stream.Merge", "plans with an endless input that ignores its context", 1)
+}
+
+// cpuSeconds is the CPU time (user + system) this process has used.
+func cpuSeconds() float64 {
+	var ru syscall.Rusage
+	if err := syscall.Getrusage(syscall.RUSAGE_SELF, &ru); err != nil {
+		return -1
+	}
+	tv := func(t syscall.Timeval) float64 { return float64(t.Sec) + float64(t.Usec)/1e6 }
+	return tv(ru.Utime) + tv(ru.Stime)
+}
+
+// spinningAfterClose decides, for a Close that has been blocked for a long time without being
+// parked for good, whether a goroutine of this stream.Merge is spinning: in two dumps 2 s apart a
+// goroutine started by this case with a stream.Merge frame is running / runnable while Close is
+// still blocked, the process burned >= 1.5 s of CPU in between, and the endless inputs were asked
+// for >= 1000 further values in between (on correct code: at most one per input after Close).
+// Anything less is no verdict.
+func spinningAfterClose(gs *gset, ins []*recIn, phase *atomic.Int32, done <-chan struct{}) (bool, map[string]any) {
+	look := func() (string, int64) {
+		raw := ""
+		for _, g := range vkit.Goroutines() {
+			if gs.startedHere(g) && g.Has("juniper/stream.Merge") && (g.State == "running" || g.State == "runnable") {
+				raw += g.Raw + "\n\n"
+			}
+		}
+		var pulled int64
+		for _, ri := range ins {
+			pulled += ri.seq.Load()
+		}
+		return raw, pulled
+	}
+	closed := func() bool {
+		select {
+		case <-done:
+			return true
+		default:
+			return phase.Load() != phClose
+		}
+	}
+	cpu0 := cpuSeconds()
+	d0, n0 := look()
+	time.Sleep(2 * time.Second)
+	d1, n1 := look()
+	cpu1 := cpuSeconds()
+	w := map[string]any{"cpu_seconds_between_dumps": cpu1 - cpu0, "values_pulled_from_endless_inputs_between_dumps": n1 - n0,
+		"running_goroutines_first_dump": trunc(d0, 4000), "running_goroutines_second_dump": trunc(d1, 4000)}
+	switch {
+	case closed():
+		w["why_not"] = "Close returned meanwhile"
+	case d0 == "" || d1 == "":
+		w["why_not"] = "no running stream.Merge goroutine of the case in both dumps"
+	case cpu0 < 0 || cpu1-cpu0 < 1.5:
+		w["why_not"] = fmt.Sprintf("only %.2f s of CPU in 2 s", cpu1-cpu0)
+	case n1-n0 < 1000:
+		w["why_not"] = fmt.Sprintf("only %d values pulled in 2 s", n1-n0)
+	default:
+		return true, w
+	}
+	return false, w
+}
+
 // ---------------------------------------------------------------------------------------------
 // Named regression scenarios for the defects already repaired in /repo (DESIGN section 5).
 
-const nRegress = 10
+const nRegress = 12
 
 func regressCase(c *vkit.Case) {
 	if c.R.NViolations() >= maxViolations {
@@ -740,6 +951,26 @@ func regressCase(c *vkit.Case) {
 		for i := 0; i < n; i++ {
 			p.Inputs = append(p.Inputs, sInput{N: rnd.Range(1, 4), Kind: kindEnd, Pace: vkit.Pick(rnd, []float64{0.4, 0.8, 1})})
 		}
+		runStream(c, p)
+	case 10:
+		name = "Close after k items returns although an input is an endless generator that ignores its context"
+		n := rnd.Range(1, 3)
+		p := sPlan{Label: name, CloseAfter: rnd.Intn(6), ConsPace: pace()}
+		for i := 0; i < n; i++ {
+			p.Inputs = append(p.Inputs, sInput{N: rnd.Intn(3), Kind: vkit.Pick(rnd, []int{kindEnd, kindBlock}), Pace: pace()})
+		}
+		p.Inputs[rnd.Intn(n)] = sInput{Kind: kindEndless}
+		runStream(c, p)
+	case 11:
+		name = "an input fails while an endless generator that ignores its context keeps producing: error reported, Close returns"
+		n := rnd.Range(2, 4)
+		p := sPlan{Label: name, CloseAfter: -1, ConsPace: pace()}
+		for i := 0; i < n; i++ {
+			p.Inputs = append(p.Inputs, sInput{N: rnd.Intn(3), Kind: vkit.Pick(rnd, []int{kindEnd, kindBlock}), Pace: pace()})
+		}
+		f := rnd.Intn(n)
+		p.Inputs[f] = sInput{N: 3, Kind: kindFatal, FatalAt: rnd.Intn(4), ErrKind: rnd.Intn(len(errKindNames)), Pace: pace()}
+		p.Inputs[(f+1+rnd.Intn(n-1))%n] = sInput{Kind: kindEndless}
 		runStream(c, p)
 	case 6:
 		name = "chans.Merge of zero inputs returns"
